@@ -132,6 +132,7 @@ func (r *run) process(stream string, d *Design) {
 	}
 	// metadata split cases: request message attributes = payload minus metadata
 	r.splitCases(d)
+	r.requiredCases(d)
 }
 
 var reVar = regexp.MustCompile(`\[[^\]]*\]|"[^"]*"|[0-9]+`)
@@ -313,7 +314,9 @@ func (r *run) witness(w Witness) {
 		}
 	}
 	// the model's verdict on the same design (when the message is an object the model can describe)
-	if term, why := ModelFile(&w.D.Svcs[0]); why == "" {
+	if witnessesOutsideModel[w.Name] {
+		r.res.Count("witness-outside-model:" + w.Name)
+	} else if term, why := ModelFile(&w.D.Svcs[0]); why == "" {
 		i := r.newCase(caseInfo{Stream: "witness", Design: w.D, Proto: text})
 		r.wit = append(r.wit, fmt.Sprintf("(%d, %s, WText %s)", i, term, zn(text)))
 	} else {
@@ -385,7 +388,7 @@ func (r *run) splitCases(d *Design) {
 			if fs, isObj, _ := o.ioFields(m.Payload); isObj && m.Payload != nil && m.SPayload == nil {
 				if got, ok := x.request(mi); ok {
 					i := r.newCase(caseInfo{Stream: "split", Svc: svc.Name, Design: d})
-					splitLines = append(splitLines, fmt.Sprintf("(%d, %s, [%s; %s], %s)", i, strs(fldNames(fs)), strs(m.Metadata), strs(m.SecNames(d)), strs(got)))
+					splitLines = append(splitLines, fmt.Sprintf("(%d, %s, %s, [%s; %s], %s)", i, strs(fldNames(fs)), strs(msgNames(m.ReqMsg)), strs(m.Metadata), strs(m.SecNames(d)), strs(got)))
 				}
 			}
 			res := m.Result
@@ -395,14 +398,67 @@ func (r *run) splitCases(d *Design) {
 			if fs, isObj, _ := o.ioFields(res); isObj && res != nil {
 				if got, ok := x.response(mi); ok {
 					i := r.newCase(caseInfo{Stream: "split", Svc: svc.Name, Design: d})
-					splitLines = append(splitLines, fmt.Sprintf("(%d, %s, [%s; %s], %s)", i, strs(fldNames(fs)), strs(m.Headers), strs(m.Trailers), strs(got)))
+					splitLines = append(splitLines, fmt.Sprintf("(%d, %s, %s, [%s; %s], %s)", i, strs(fldNames(fs)), strs(msgNames(m.RespMsg)), strs(m.Headers), strs(m.Trailers), strs(got)))
 				}
 			}
 		}
 	}
 }
 
-var splitLines, runtimeLines []string
+var splitLines, runtimeLines, reqmdLines, historyLines []string
+
+// requiredCases: a payload (result) attribute sent as metadata (header, trailer) is
+// required there exactly when the design requires it (goa's finalised expression is
+// what the generated decoders are rendered from).
+func (r *run) requiredCases(d *Design) {
+	o := &oracle{d: d}
+	for si := range d.Svcs {
+		svc := &d.Svcs[si]
+		for mi := range svc.Methods {
+			m := &svc.Methods[mi]
+			res := m.Result
+			if m.SResult != nil {
+				res = m.SResult
+			}
+			for _, part := range []struct {
+				where string
+				names []string
+				io    *IO
+			}{{"metadata", append(append([]string{}, m.Metadata...), m.SecNames(d)...), m.Payload}, {"headers", m.Headers, res}, {"trailers", m.Trailers, res}} {
+				if len(part.names) == 0 || part.io == nil || (part.where == "metadata" && m.SPayload != nil) {
+					continue
+				}
+				fs, isObj, _ := o.ioFields(part.io)
+				if !isObj {
+					continue
+				}
+				var required, want []string
+				for _, f := range fs {
+					if f.Req {
+						required = append(required, f.Name)
+					}
+				}
+				for _, n := range part.names {
+					for _, q := range required {
+						if q == n {
+							want = append(want, n)
+						}
+					}
+				}
+				got, ok := goaRequired(svc.Name, mi, part.where, part.names)
+				if !ok {
+					continue
+				}
+				if strings.Join(got, ",") != strings.Join(want, ",") {
+					r.res.Fail("metadata-required-flag-differs-from-design", fmt.Sprintf("%s.%s %s %v: the design requires %v, goa's finalised endpoint requires %v (the generated decoder hands user code a zero value instead of a missing-field error, or refuses an optional attribute)",
+						svc.Name, m.Name, part.where, part.names, want, got), map[string]any{"design": d, "method": m.Name, "where": part.where})
+				}
+				i := r.newCase(caseInfo{Stream: "reqmd", Svc: svc.Name, Design: d})
+				reqmdLines = append(reqmdLines, fmt.Sprintf("(%d, %s, %s, %s)", i, strs(part.names), strs(required), strs(got)))
+			}
+		}
+	}
+}
 
 func fldNames(fs []Fld) []string {
 	var out []string
@@ -478,6 +534,7 @@ func main() {
 			nrt = 8000
 		}
 		runtimeLines = r.runtimeStream(rng.Fork(), nrt)
+		historyLines = r.historyStream(rng.Fork(), nrt/10, nrt/4)
 		if *tier == "thorough" {
 			tierB(r, rng.Fork(), *out, *repo)
 		}
@@ -492,6 +549,8 @@ func finish(r *run, out string) {
 	writeLines(filepath.Join(out, "cases_witness.txt"), r.wit)
 	writeLines(filepath.Join(out, "cases_split.txt"), splitLines)
 	writeLines(filepath.Join(out, "cases_runtime.txt"), runtimeLines)
+	writeLines(filepath.Join(out, "cases_reqmd.txt"), reqmdLines)
+	writeLines(filepath.Join(out, "cases_history.txt"), historyLines)
 	r.res.Distinct = len(r.distinct)
 	r.res.Rule = "designs are built through goa's public DSL from generated descriptions (fixed covering set, then seed-driven random designs inside the partial hypotheses, then the hostile attribute-name stream, then one witness design per recorded finding); a case is one rendered .proto file (or one attribute name of the name stream); distinct = distinct SHA-256 of the rendered text / of the name; every rendered file has a service block and at least two messages, so none is trivial"
 	if err := r.res.Write(filepath.Join(out, "result.json")); err != nil {
